@@ -752,6 +752,17 @@ func (c *Ctx) specCall(x *SCall) *Val {
 				id = v.Arr
 			}
 			return Scalar(And(Lt(IntLit(0), id), Lt(id, c.St.Top)), bt)
+		case "dom", "vals":
+			m := c.evalSpec(x.Args[0])
+			mt, ok := m.Typ.Underlying().(*types.Map)
+			if !ok {
+				c.refuse("%s() of non-map", name)
+			}
+			dom, val, _ := c.mapArrays(c.specHeap(), mt)
+			if name == "dom" {
+				return &Val{K: VLogic, T: Select(dom, m.T)}
+			}
+			return &Val{K: VLogic, T: Select(val, m.T)}
 		case "has":
 			m := c.evalSpec(x.Args[0])
 			k := c.evalSpec(x.Args[1])
